@@ -54,7 +54,107 @@ def _unconditional_nest(body, h):
     return found
 
 
+def dup_helpers(ctx):
+    """crate-local helpers that answer "does some key occur twice in this list?":
+         keys.iter().enumerate().any(|(i, k)| keys[i+1..].contains(k))            -> 'bool'
+         keys.iter().enumerate().find(|(i, k)| keys[i+1..].contains(k))[.map(..)]  -> 'option'
+       (some i < j with keys[i] == keys[j]  <=>  some i whose key occurs again in keys[i+1..])"""
+    cache = ctx.F.__dict__.setdefault("_dup_helpers", None)
+    if cache is not None:
+        return cache
+    from .. import tables
+    out = {}
+    for pth in sorted(ctx.F.bodies):
+        if "{closure" in pth or "::tests::" in pth or pth.startswith("<") or "::promoted[" in pth:
+            continue
+        b = ctx.body(pth)
+        if b.argc != 1 or b.loops() or len(b.blocks) > 40:
+            continue
+        keys = T("param", 1, b.dbg.get(1, ""))
+        rets = [p for p in mir.walk_function(b) if p.outcome[0] == "return"]
+        if len(rets) != 1:
+            continue
+        r = rets[0].outcome[1]
+        kind = "bool"
+        if isinstance(r, tuple) and r and r[0] == "call" and method_name(r[1]) == "map" and len(r[2]) == 2:
+            r = r[2][0]
+            kind = "option"
+        if not (isinstance(r, tuple) and r and r[0] == "call" and method_name(r[1]) in ("any", "find")):
+            continue
+        if method_name(r[1]) == "find":
+            kind = "option"
+        sc = tables.closure_scan(ctx.body, r)
+        if sc.problems or not sc.enum or sc.iter_term != T("iter", keys, "fwd") or len(sc.set_paths) != 1 or len(sc.set_paths[0]) != 1:
+            continue
+        a, v = sc.set_paths[0][0]
+        want_slice = T("index", keys, T("agg", "std::ops::RangeFrom", "RangeFrom", (T("binop", "Add", T("enumidx", sc.iter_term), T("const", T("int", 1, "usize"))),), ("start",)))
+        if v is True and isinstance(a, tuple) and a[0] == "in" and mir.strip(a[1]) == T("elem", sc.iter_term, None) and _same_slice(a[2], want_slice):
+            out[pth] = kind
+    ctx.F._dup_helpers = out
+    return out
+
+
+def _same_slice(t, want):
+    t = mir.strip(t)
+    if t == want:
+        return True
+    # the aggregate's field-name tuple may be spelled differently: compare the parts that matter
+    try:
+        return t[0] == "index" and t[1] == want[1] and t[2][0] == "agg" and t[2][1] == "std::ops::RangeFrom" and t[2][3][0] == want[2][3][0]
+    except Exception:
+        return False
+
+
+def _helper_checks(ctx, body, subject_pred, strict):
+    """`if has_duplicate(X.F) { FAIL }` / `if let Some(k) = first_repeated(X.F) { FAIL }`"""
+    helpers = dup_helpers(ctx)
+    out = []
+    if not helpers:
+        return out
+    levels = [mir.walk_function(body)] + [mir.walk_loop_body(body, h) for h in sorted(body.loops())]
+    seen = set()
+    for paths in levels:
+        for p in paths:
+            for i, e in enumerate(p.events):
+                if e.kind != "guard" or not isinstance(e.a, tuple):
+                    continue
+                c = e.a[1] if e.a[0] == "variantof" else e.a
+                if not (isinstance(c, tuple) and c and c[0] == "call" and c[1] in helpers and len(c[2]) == 1):
+                    continue
+                hit = (e.b == "Some") if e.a[0] == "variantof" else (e.b is True)
+                if not hit:
+                    continue
+                vec = mir.strip(c[2][0])
+                while isinstance(vec, tuple) and vec and vec[0] in ("call",) and method_name(vec[1]) in ("deref", "as_slice", "as_ref"):
+                    vec = mir.strip(vec[2][0])
+                if not (isinstance(vec, tuple) and vec[0] == "field" and subject_pred(vec[1])):
+                    continue
+                if strict:
+                    data = [g for g in p.events[:i] if g.kind == "guard" and isinstance(g.a, tuple) and not (g.a[0] == "variantof" and isinstance(g.a[1], tuple) and g.a[1][0] == "next")
+                            and not (isinstance(g.a, tuple) and ((g.a[0] == "variantof" and isinstance(g.a[1], tuple) and g.a[1][0] == "call" and g.a[1][1] in helpers) or (g.a[0] == "call" and g.a[1] in helpers)))]
+                    if data:
+                        continue
+                rest = p.events[i + 1:]
+                if [g for g in rest if g.kind == "guard" and not (isinstance(g.a, tuple) and g.a[0] == "variantof" and isinstance(g.a[1], tuple) and g.a[1][0] in ("try",))]:
+                    continue    # the failure is not the immediate consequence
+                if p.outcome[0] == "diverge":
+                    key = (vec[2], "panic")
+                    if key not in seen:
+                        seen.add(key)
+                        out.append((vec[2], "panic", p.outcome[1]))
+                elif p.outcome[0] == "return" and isinstance(p.outcome[1], tuple) and p.outcome[1][0] == "agg" and p.outcome[1][2] == "Err":
+                    key = (vec[2], "err")
+                    if key not in seen:
+                        seen.add(key)
+                        out.append((vec[2], "err", None))
+    return out
+
+
 def pairwise_checks(ctx, body, subject_pred, strict=False):
+    return _loop_pairwise_checks(ctx, body, subject_pred, strict) + _helper_checks(ctx, body, subject_pred, strict)
+
+
+def _loop_pairwise_checks(ctx, body, subject_pred, strict=False):
     """finds `for i in 0..X.F.len() { for j in i+1..X.F.len() { if X.F[i] == X.F[j] { FAIL } } }`.
     -> list of (field F, failure kind 'panic'|'err', block of the failing event)"""
     out = []
